@@ -100,7 +100,7 @@ fn main() {
         let wit = std::fs::read_to_string(p).expect("replay wit");
         run(&mut rep, "replay", &wit, false);
     } else {
-        let n = args.u64("worlds", if thorough { 4000 } else { 300 }) as usize;
+        let n = args.u64("worlds", if thorough { 2000 } else { 300 }) as usize;
         let mut discarded = 0;
         for i in 0..n {
             if !workload::mine(i, shard, shards) {
